@@ -683,6 +683,21 @@ func runC17(s sched17, kind string, idx int) Case {
 					obs(4, bn(err != nil), uint64(h), uint64(a), uint64(dd), bn(nfs.VerifLTSPoolRunning()), bn(nfs.VerifLTSExportServer() != nil))
 					nfsOps = append(nfsOps, "NUnexport")
 					tags["unexports"]++
+				case "activity":
+					// the handler is used again (in-process) after an Unexport: handles and cache entries come back,
+					// and the next Close / Unexport has to release them again
+					for i := 0; i < s.files; i++ {
+						if _, err := nfs.VerifLTSHandleFor(fmt.Sprintf("/g%d", i)); err == nil {
+							nfsOps = append(nfsOps, fmt.Sprintf("NHandle %d", i), fmt.Sprintf("NAttr %d", i))
+						}
+					}
+					if root, err := nfs.Lookup("/"); err == nil {
+						nfs.ReadDir(root)
+						nfsOps = append(nfsOps, "NDir 0")
+					}
+					if h, _, _ := nfs.VerifLTSCounts(); h > 0 {
+						tags["activity_after_unexport"]++
+					}
 				case "stop":
 					err := d.srv.Stop()
 					cnt, act := d.srv.VerifLTSConnCounts()
@@ -785,7 +800,9 @@ func genC17(r *Rand, idx int, tier string) Case {
 			s.max = 0 // the default limit of 100: all of them are registered when Stop closes them
 		}
 	}
-	s.closing = [][]string{{"close", "close"}, {"close", "unexport", "stop"}, {"unexport", "close", "close"}, {"stop", "close", "unexport", "close"}}[r.Intn(4)]
+	s.closing = [][]string{{"close", "close"}, {"close", "unexport", "stop"}, {"unexport", "close", "close"}, {"stop", "close", "unexport", "close"},
+		{"unexport", "activity", "unexport", "close"}, {"unexport", "unexport", "activity", "close", "close"},
+		{"stop", "unexport", "activity", "unexport", "activity", "close"}}[r.Intn(7)]
 	return runC17(s, kind, idx)
 }
 
@@ -796,7 +813,7 @@ func corpusC17() []Case {
 		{kind: "open"}, {kind: "close"}, {kind: "stop"}}, closing: []string{"close", "close", "unexport", "stop"}}
 	filt := sched17{max: 2, idleNs: 60 * ms, filter: true, files: 1, acts: []act17{
 		{kind: "openbad"}, {kind: "open"}, {kind: "open"}, {kind: "open"}, {kind: "tick", adv: 30 * ms}, {kind: "use", conn: 1},
-		{kind: "tick", adv: 45 * ms}, {kind: "stop"}}, closing: []string{"unexport", "close"}}
+		{kind: "tick", adv: 45 * ms}, {kind: "stop"}}, closing: []string{"unexport", "activity", "unexport", "close"}}
 	churn := sched17{max: 3, idleNs: 3600000 * ms, files: 3, acts: []act17{{kind: "open"}}, churn: 8, rounds: 6, stopMid: true,
 		closing: []string{"close", "close"}}
 	return []Case{runC17(limit, "limit-reap-stop", 0), runC17(filt, "filter-reap-stop", 1), runC17(churn, "churn-stop-mid-burst", 2)}
